@@ -17,4 +17,72 @@ __CPROVER_assigns(*result)
 __CPROVER_ensures(POST_OPT_PARSE_ACCEPT(__CPROVER_return_value, opt, length))
 __CPROVER_ensures(POST_OPT_PARSE_VALUE(__CPROVER_return_value, opt, length, result))
 ;
+
+/* ---- encoder side (C01/P1).  MAXOPTLEN = largest encodable value length (0xFFFF + 269). */
+#define MAXOPTLEN 65804u
+#define MIN_(a, b) ((a) < (b) ? (a) : (b))
+#define POST_SETHEADER_RET(ret, maxlen, d, l) ((ret) == ((maxlen) < HDRSZ(d, l) ? 0u : HDRSZ(d, l)))
+#define POST_SETHEADER_BYTES(ret, opt, d, l) \
+  ((ret) == 0 || (DN(opt) == NIB((uint32_t)(d)) && LN(opt) == NIB((uint32_t)(l)) && \
+                  HDR(opt) == HDRSZ(d, l) && DELTA(opt) == (uint32_t)(d) && LENV(opt) == (uint32_t)(l)))
+
+size_t coap_opt_setheader_contract(coap_opt_t *opt, size_t maxlen, uint16_t delta, size_t length)
+__CPROVER_requires(length <= MAXOPTLEN)
+__CPROVER_requires(__CPROVER_w_ok(opt, maxlen))
+__CPROVER_assigns(maxlen < 5: __CPROVER_object_upto(opt, maxlen); maxlen >= 5: __CPROVER_object_upto(opt, 5))
+__CPROVER_ensures(POST_SETHEADER_RET(__CPROVER_return_value, maxlen, delta, length))
+__CPROVER_ensures(POST_SETHEADER_BYTES(__CPROVER_return_value, opt, delta, length))
+;
+
+size_t coap_opt_encode_size_contract(uint16_t delta, size_t length)
+__CPROVER_requires(length <= MAXOPTLEN)
+__CPROVER_assigns()
+__CPROVER_ensures(__CPROVER_return_value == HDRSZ(delta, length) + length)
+;
+
+#define POST_ENCODE_RET(ret, maxlen, d, l) ((ret) == ((maxlen) < HDRSZ(d, l) + (l) ? 0u : HDRSZ(d, l) + (l)))
+size_t coap_opt_encode_contract(coap_opt_t *opt, size_t maxlen, uint16_t delta, const uint8_t *val, size_t length)
+__CPROVER_requires(length <= MAXOPTLEN)
+__CPROVER_requires(__CPROVER_w_ok(opt, maxlen))
+__CPROVER_requires(val == NULL || __CPROVER_r_ok(val, length))
+__CPROVER_assigns(__CPROVER_object_upto(opt, maxlen))
+__CPROVER_ensures(POST_ENCODE_RET(__CPROVER_return_value, maxlen, delta, length))
+__CPROVER_ensures(POST_SETHEADER_BYTES(__CPROVER_return_value, opt, delta, length))
+;
+
+/* ---- accessors without a length argument: the caller owes "the header is inside the buffer". */
+#define OPT_RESERVED(o) (DN(o) == 15 || LN(o) == 15)
+uint32_t coap_opt_length_contract(const coap_opt_t *opt)
+__CPROVER_requires(__CPROVER_r_ok(opt, 1) && __CPROVER_r_ok(opt, HDR(opt)))
+__CPROVER_assigns()
+__CPROVER_ensures(__CPROVER_return_value == (OPT_RESERVED(opt) ? 0u : LENV(opt)))
+;
+const uint8_t *coap_opt_value_contract(const coap_opt_t *opt)
+__CPROVER_requires(__CPROVER_r_ok(opt, 1) && __CPROVER_r_ok(opt, HDR(opt)))
+__CPROVER_assigns()
+__CPROVER_ensures(__CPROVER_return_value == (OPT_RESERVED(opt) ? (const uint8_t *)0 : (opt) + HDR(opt)))
+;
+size_t coap_opt_size_contract(const coap_opt_t *opt)
+__CPROVER_requires(__CPROVER_r_ok(opt, 1) && __CPROVER_r_ok(opt, HDR(opt)) && __CPROVER_r_ok(opt, HDR(opt) + LENV(opt)))
+__CPROVER_assigns()
+__CPROVER_ensures(__CPROVER_return_value == ((OPT_RESERVED(opt) || DELTA(opt) > 65535u) ? 0u : HDR(opt) + LENV(opt)))
+;
+
+/* ---- iterator step (no filter): relational contract; the grammar itself is stated once, on
+ * coap_opt_parse.  The iterator owns [next_option, next_option+length). */
+#define POST_NEXT_NULL(ret, oi) ((ret) != NULL || (oi)->bad)
+#define POST_NEXT_STEP(ret, oi, old_next, old_len, old_num) \
+  ((ret) == NULL || (!(oi)->bad && (ret) == (old_next) && WELLFORMED(ret, old_len) && \
+     (oi)->next_option == (ret) + (HDR(ret) + LENV(ret)) && (oi)->length == (old_len) - (HDR(ret) + LENV(ret)) && \
+     (oi)->number == (coap_option_num_t)((old_num) + DELTA(ret))))
+#define POST_NEXT_END(ret, oi, old_next, old_len, old_bad) \
+  ((ret) != NULL || (old_bad) || (old_len) == 0 || (old_next) == NULL || (old_next)[0] == 0xFF || !WELLFORMED(old_next, old_len))
+coap_opt_t *coap_option_next_contract(coap_opt_iterator_t *oi)
+__CPROVER_requires(__CPROVER_w_ok(oi, sizeof(*oi)) && !oi->filtered)
+__CPROVER_requires(oi->bad || oi->length == 0 || oi->next_option == NULL || __CPROVER_r_ok(oi->next_option, oi->length))
+__CPROVER_assigns(*oi)
+__CPROVER_ensures(POST_NEXT_NULL(__CPROVER_return_value, oi))
+__CPROVER_ensures(POST_NEXT_STEP(__CPROVER_return_value, oi, __CPROVER_old(oi->next_option), __CPROVER_old(oi->length), __CPROVER_old(oi->number)))
+__CPROVER_ensures(POST_NEXT_END(__CPROVER_return_value, oi, __CPROVER_old(oi->next_option), __CPROVER_old(oi->length), __CPROVER_old(oi->bad)))
+;
 #endif
